@@ -10,6 +10,8 @@
 
 #include <boost/gil/extension/io/bmp/tags.hpp>
 
+#include <algorithm>
+
 namespace boost { namespace gil {
 
 #if BOOST_WORKAROUND(BOOST_MSVC, >= 1400)
@@ -181,7 +183,8 @@ public:
             entries = 1u << this->_info._bits_per_pixel;
         }
 
-        _palette.resize( entries, rgba8_pixel_t(0, 0, 0, 0));
+        // the pixel data can hold any index of the bit depth: entries the file does not define are black
+        _palette.resize( (std::max)( entries, 1 << _info._bits_per_pixel ), rgba8_pixel_t(0, 0, 0, 0));
 
 		for( int i = 0; i < entries; ++i )
         {
